@@ -100,6 +100,9 @@ type keystore struct {
 	done     chan struct{}
 	// closeOnce makes closing the close channel safe for concurrent Close calls.
 	closeOnce sync.Once
+	// closing is held by the Close call doing the work until it has finished
+	// with the datastore; concurrent Close calls wait for it before returning.
+	closing sync.WaitGroup
 
 	logger *log.ZapEventLogger
 }
@@ -622,13 +625,16 @@ func (s *keystore) Close() error {
 	first := false
 	s.closeOnce.Do(func() {
 		first = true
+		s.closing.Add(1)
 		close(s.close)
 	})
 	<-s.done // Wait for worker to exit
 	if !first {
 		// Another Close call is under way or over.
+		s.closing.Wait()
 		return nil
 	}
+	defer s.closing.Done()
 	if err = s.persistSize(); err != nil {
 		return fmt.Errorf("error persisting size on close: %w", err)
 	}
